@@ -34,15 +34,15 @@ def seed(name):
     if name == "Grid3":
         return fem.Grid(np.array([0.0, 1.0, 3.0]), np.array([0.0, 2.0]), np.array([0.0, 1.0])), {"extent": 3 * 2 * 1 * SC ** 3}
     if name == "Trapezoid":        # quads with non-parallel opposite edges (width tapers from 2 to 1 over the height)
-        m = fem.Rectangle(a=(1, 1), b=(5, 3), n=(3, 2))
-        p = m.points.copy()
-        p[:, 0] = 1 + (p[:, 0] - 1) * (1 - (p[:, 1] - 1) * 0.25)
-        return fem.Mesh(p, m.cells, m.cell_type), {"extent": 6 * SC ** 2}
+        m = fem.Rectangle(a=(1, 1), b=(3, 2), n=(2, 2))          # one cell with integer corners (1,1) (3,1) (2,2) (1,2): stays on the
+        p = m.points.copy()                                      # 1/8 lattice under mid-point insertion and inside the magnitude
+        p[:, 0] = 1 + (p[:, 0] - 1) * (1 - (p[:, 1] - 1) * 0.5)  # range of the Rectangle seed (32-bit volumes at depth 3)
+        return fem.Mesh(p, m.cells, m.cell_type), {"extent": 3 * SC ** 2 // 2}
     if name == "TrapezoidPrism":   # planar-faced hexahedra whose edges along the second natural direction are not parallel
-        m = fem.Cube(a=(0, 0, 0), b=(4, 2, 2), n=(3, 2, 2))
+        m = fem.Cube(a=(0, 0, 0), b=(2, 1, 1), n=(2, 2, 2))
         p = m.points.copy()
-        p[:, 0] = p[:, 0] * (1 - p[:, 1] * 0.25)
-        return fem.Mesh(p, m.cells, m.cell_type), {"extent": 12 * SC ** 3}
+        p[:, 0] = p[:, 0] * (1 - p[:, 1] * 0.5)
+        return fem.Mesh(p, m.cells, m.cell_type), {"extent": 3 * SC ** 3 // 2}
     raise ValueError(name)
 
 
@@ -88,7 +88,9 @@ def apply(op, m):
     if k[0] == "stack":
         h = max(1, m.ncells // 2)
         a = fem.Mesh(m.points, m.cells[:h], m.cell_type)
-        b = fem.Mesh(m.points, m.cells[h:], m.cell_type) if m.ncells > h else fem.Mesh(m.points, m.cells[:h], m.cell_type)
+        if m.ncells <= h:            # a single cell cannot be split in two blocks: stack of one block
+            return [("stack", {}, [a], fem.mesh.stack([a]))]
+        b = fem.Mesh(m.points, m.cells[h:], m.cell_type)
         return [("stack", {}, [a, b], fem.mesh.stack([a, b]))]
     if k[0] == "disconnect":
         return [("disconnect", {}, [m], m.disconnect())]
